@@ -665,14 +665,15 @@ def gen_cases(ctx):
                 small.append([fa, fb])
     for i, fs in enumerate(small):
         w0 = fs[0].wire()
-        cut = (i % (len(w0) - 1)) + 1
         data = b''.join(f.wire() for f in fs)
-        plan = 'h%s,p2,h%s' % (data[:cut].hex(), data[cut:].hex())
-        cases.append(Case('run', 'c11_run %d - fin %s' % (i % 2, plan), fs, {'echo': i % 2, 'limit': None, 'end': 'fin',
-                                                                                'style': 'cut%d' % cut, 'tail': ''}, 2, 'exh-pairs'))
+        # quick: one cut point of the first frame per pair (all positions covered across the pairs); thorough: every cut
+        for cut in (range(1, len(data)) if thorough else [(i % (len(w0) - 1)) + 1]):
+            plan = 'h%s,p2,h%s' % (data[:cut].hex(), data[cut:].hex())
+            cases.append(Case('run', 'c11_run %d - fin %s' % (i % 2, plan), fs, {'echo': i % 2, 'limit': None, 'end': 'fin',
+                                                                                    'style': 'cut%d' % cut, 'tail': ''}, 2, 'exh-pairs'))
     # every k = bytes available at the first non-blocking read, for every opcode
     for op in OPCODES:
-        for k in range(0, 5):
+        for k in range(0, 10 if thorough else 5):
             f = Fr(op, b'hi' if op != CLOSE else b'\x03\xe8', 1, rand_key(rng))
             g = Fr(TEXT, b'next', 1, rand_key(rng))
             sim = NbSim([f, g])
@@ -693,7 +694,7 @@ def gen_cases(ctx):
                                'ks': sim.ks}, 4, 'exh-nb-k'))
 
     # ---- (b) structured random scripts, blocking ----
-    n_run = 2600 if thorough else 190
+    n_run = 22000 if thorough else 260
     nbig = 0
     for i in range(n_run):
         big_ok = nbig < (150 if thorough else 9)
@@ -723,7 +724,7 @@ def gen_cases(ctx):
             cases.append(run_case(frames, rng, echo=False, end='rst', tag='rst'))
 
     # ---- (c) malformed stream ----
-    n_mal = 700 if thorough else 60
+    n_mal = 5000 if thorough else 90
     for i in range(n_mal):
         frames, closes = rand_script(rng, False, maxframes=8, close_p=0.3)
         kind = rng.choice(['cont-first', 'mixed-opcodes', 'ctrl-nofin', 'ctrl-big', 'unmasked', 'rsv', 'nonminimal', 'reserved-op',
@@ -760,7 +761,7 @@ def gen_cases(ctx):
         cases.append(run_case(frames, rng, echo=rng.random() < 0.3, end='wait' if has_close else 'fin', tag='mal-' + kind, tail=tail))
 
     # ---- (d) non-blocking, choreographed ----
-    n_nb = 900 if thorough else 70
+    n_nb = 7000 if thorough else 110
     for i in range(n_nb):
         frames, closes = rand_script(rng, i % 9 == 0, maxframes=rng.choice([2, 4, 6, 12]))
         if sum(len(f.payload) for f in frames) > 150000:
@@ -778,7 +779,7 @@ def gen_cases(ctx):
         cases.append(Case('nb', 'c11_nb ' + steps, frames, {'polls': polls, 'out': out.hex(), 'ks': ks, 'tail': tail.hex()}, w, 'nb'))
 
     # ---- (e) non-blocking, free-running ----
-    n_free = 400 if thorough else 36
+    n_free = 3000 if thorough else 44
     for i in range(n_free):
         frames, closes = rand_script(rng, False, maxframes=rng.choice([3, 6, 12]))
         style = rng.choice(['headers', 'hdrbytes', 'random', 'frames', 'bytewise'])
@@ -789,7 +790,7 @@ def gen_cases(ctx):
                           3 + plan.count(',p') * 3, 'nbfree'))
 
     # ---- (f) handshakes through the real App ----
-    n_hs = 500 if thorough else 44
+    n_hs = 3000 if thorough else 60
     post_frames = [Fr(TEXT, b'hi', 1, b'\x01\x02\x03\x04'), Fr(PING, b'p', 1, b'\xff\x00\xff\x00'), Fr(CLOSE, b'\x03\xe8', 1, b'\x0a\x0b\x0c\x0d')]
     post = b''.join(f.wire() for f in post_frames)
     for i in range(n_hs):
@@ -1022,11 +1023,14 @@ def run(ctx):
                            cls='model-vs-oracle', failing_input=False,
                            what='Coq model of the endpoint disagrees with the Python RFC 6455 reference on a well-formed script')
             if end == 'rst':
-                # what the server wrote cannot be observed; the final error may be a read or a write error
-                norm = lambda s: s.replace('E:write', 'E:read').replace('E:send', 'E:read')
-                if norm(res_b) != norm(res_a):
-                    ctx.report(cj, 'impl res=' + res_b[:300], 'expected res=' + res_a[:300], cls='recv-mismatch',
-                               failing_input=wellformed,
+                # what the server wrote cannot be observed.  The peer is gone: as soon as a reply (Pong) cannot be written the
+                # loop ends with WriteError, so the messages delivered are a prefix of the messages sent
+                la, lb = res_a.split(';'), res_b.split(';')
+                ok = (lb == la) or (lb and lb[-1] in ('E:write', 'E:send') and lb[:-1] == la[:len(lb) - 1] and
+                                    all(not x.startswith('E:') for x in lb[:-1]))
+                if not ok:
+                    ctx.report(cj, 'impl res=' + res_b[:300], 'expected res=' + res_a[:300] + ' (or a prefix of the messages, then E:write)',
+                               cls='recv-mismatch', failing_input=wellformed,
                                what='recv() results %s differ from the messages sent %s; client frames [%s], then the client closes '
                                     'the socket' % (res_b[:160], res_a[:160], describe(c.frames)))
                 continue
